@@ -17,6 +17,13 @@ Theorem C16_facts_ok :
 Proof. exact facts_ok. Qed.
 Print Assumptions C16_facts_ok.
 
+(* the filemap is per-instance state: static_view.__init__ binds self.filemap to a fresh {} and
+   static_view touches no module-level or class-level mutable container (the extractor fails
+   closed on anything else) *)
+Theorem C16_filemap_per_instance : filemap_per_instance = true.
+Proof. exact facts_ok2. Qed.
+Print Assumptions C16_filemap_per_instance.
+
 (* _secure_path (over the regenerated insecure-element and invalid-character
    sets) accepts a tuple iff no element is '', '.', '..' and none contains '/'
    (= os.sep) or NUL; the accepted tuple is joined with '/' *)
@@ -107,3 +114,43 @@ Print Assumptions C16_filemap_transparent.
 Theorem C16_filemap_fresh_exact : forall c fs, fm_exact c fs [].
 Proof. exact fm_exact_nil. Qed.
 Print Assumptions C16_filemap_fresh_exact.
+
+(* several view instances in one process (run_multi: requests tagged with the instance that
+   serves them, one filemap per instance): every answer of any interleaving equals the answer a
+   fresh, lone instance with that configuration gives to that request -- independent of what the
+   OTHER instances, and the instance itself, have served before.  No hypothesis on the
+   configurations (same docroot twice, same relative docroot in different packages, different
+   encodings lists are all covered) *)
+Theorem C16_filemap_transparent_multi : forall cs fs rqs fms,
+  fms_exact cs fs fms ->
+  map fst (run_multi cs fs fms rqs) =
+  map (fun ir => fst (fst (run_request (nth (fst ir) cs dflt_cfg) fs [] (snd ir)))) rqs.
+Proof. exact multi_transparent. Qed.
+Print Assumptions C16_filemap_transparent_multi.
+
+Theorem C16_filemap_fresh_exact_multi : forall cs fs, fms_exact cs fs (map (fun _ => []) cs).
+Proof. exact fms_exact_fresh. Qed.
+Print Assumptions C16_filemap_fresh_exact_multi.
+
+(* with several instances each response conforms to the specification of ITS OWN configuration
+   (root, encodings, index), and each trace stays beneath ITS OWN root *)
+Theorem C16_serves_designated_file_multi : forall cs fs rqs,
+  (forall i, wf (nth i cs dflt_cfg) /\ root_is_dir (nth i cs dflt_cfg) fs /\ host_ok (nth i cs dflt_cfg)) ->
+  Forall (fun ir => decodable (nth (fst ir) cs dflt_cfg) (snd ir)) rqs ->
+  Forall (fun x => conforms (fst (snd x)) (spec_response (nth (fst (fst x)) cs dflt_cfg) (snd (fst x)) fs) = true)
+         (combine rqs (run_multi_model cs fs rqs)).
+Proof. exact multi_conform. Qed.
+Print Assumptions C16_serves_designated_file_multi.
+
+Theorem C16_containment_multi : forall cs fs rqs,
+  (forall i, wf (nth i cs dflt_cfg) /\ root_is_dir (nth i cs dflt_cfg) fs) ->
+  Forall (fun x => contained (nth (fst (fst x)) cs dflt_cfg) (snd (snd x)) = true)
+         (combine rqs (run_multi_model cs fs rqs)).
+Proof. exact multi_containment. Qed.
+Print Assumptions C16_containment_multi.
+
+(* the runner used in the correspondence is run_multi; with one instance it is run_requests *)
+Theorem C16_run_multi_single : forall c fs rqs fm,
+  run_multi [c] fs [fm] (map (pair O) rqs) = run_requests c fs fm rqs.
+Proof. exact run_multi_single. Qed.
+Print Assumptions C16_run_multi_single.
